@@ -23,6 +23,9 @@ func goodAscConn(lines ...string) ConnScript {
 }
 
 func genC11(tier string, rng *Rng) {
+	if runInChild() {
+		return
+	}
 	findDriver("C11")
 	var scs []*Scenario
 	hist := map[string]int{}
@@ -118,7 +121,18 @@ func genC11(tier string, rng *Rng) {
 		}
 	}
 
-	// ---- panel absent / refusing, accepting but silent
+	// ---- a frame whose header is split after its 1st, 2nd or 3rd byte with a pause, between two
+	// other frames, then the panel drops: all three complete frames delivered once, then reconnect
+	for k := 1; k <= 3; k++ {
+		for _, pause := range []int{40, 400} {
+			b := good(20 + uint32(k))
+			cs := ConnScript{Items: []Item{ackItem(), good(1), b, good(3)}, End: "close", EndT: 900 + pause}
+			cs.Segs = []SegCut{{0, 6}, {300, gl + k}, {300 + pause, gl - k + gl}}
+			add("header-split", &Scenario{Cancel: 900 + pause + 1000 + 700, Conns: []ConnScript{cs, goodConn(4)}})
+		}
+	}
+	_ = gl
+
 	add("absent", &Scenario{Cancel: 800})
 	add("absent", &Scenario{Cancel: 3500})
 	add("absent-cfg", &Scenario{Cancel: 1500, UseCfg: true, NoConn: 1})
